@@ -664,6 +664,8 @@ def r01_8(ctx) -> None:
 
 
 def run(ctx) -> None:
+    from .common import forwarding_discipline
+    ctx.guard(forwarding_discipline, "R01.10", ['value', 'payload', 'members', 'member', 'find_key', 'public_key'], 35)  # arguments are handed on under their own name (generic routing rule, rules/common.py)
     fam = verify_family(ctx.eng)
     ctx.guard(r01_8)
     from .c15 import r15_3
